@@ -1264,6 +1264,14 @@ func (g Gateway) DestroyBulk(stream hydrapb.HydraideService_DestroyBulkServer) e
 		go func() {
 			defer wg.Done()
 			for target := range workCh {
+				// name.Load panics on a name that is not sanctuary/realm/swamp, and a
+				// panic in this goroutine is outside the handler's recover: it would
+				// take the whole server down.
+				if err := validateSwampNameFormat(target.GetSwampName()); err != nil {
+					failed.Add(1)
+					lastError.Store(fmt.Sprintf("%s: %v", target.GetSwampName(), err))
+					continue
+				}
 				swampName := name.Load(target.GetSwampName())
 				swampInterface, err := hydraInterface.SummonSwamp(stream.Context(), target.GetIslandID(), swampName)
 				if err != nil {
